@@ -339,6 +339,22 @@ impl LightClientProtocol {
         Ok(())
     }
 
+    /// Whether another block is remembered (the stored tip and the last n headers before it) at
+    /// the height of the header.
+    ///
+    /// The blocks / transactions proofs are requested against the stored tip. A response which
+    /// arrives after the tip was replaced by a fork proves nothing for the chain of the new tip.
+    pub(crate) fn is_replaced_header(&self, header: &HeaderView) -> bool {
+        let tip_header = self.storage.get_tip_header().into_view();
+        if tip_header.number() == header.number() {
+            return tip_header.hash() != header.hash();
+        }
+        self.storage
+            .get_last_n_headers()
+            .iter()
+            .any(|(number, hash)| *number == header.number() && hash != &header.hash())
+    }
+
     /// Processes a new last state that received from a peer which has a fork chain.
     fn process_last_state(
         &self,
